@@ -44,7 +44,12 @@ Inductive listk :=
 | LForNum (x : name) (b : block) (ln : Z)
 | LForIn (xs : list name) (b : block) (ln : Z).
 
+(* what resumes after a closing method returns *)
+Inductive pend := PDone | POut (o : outcome).
+
 Inductive frame :=
+| KScope (v : value)                                  (* a to-be-closed value; closed on every kind of exit *)
+| KClosing (p : pend)                                 (* a closing method is running; p is the exit in flight *)
 | KSeq (rest : block) (ρ : env) (seen : labels)       (* rest of the enclosing block *)
 | KLoop (ln : Z) (s : stat) (ρ : env)                 (* while / repeat body running *)
 | KWhileC (ln : Z) (c : exp) (b : block) (ρ : env)
@@ -70,7 +75,8 @@ Inductive frame :=
 | KMethF (o : value) (args : list exp) (ρ : env)
 | KAssign (ts : list target) (vs : list value)
 | KIpairs (i : Z)
-| KCoBottom (co : positive).                          (* extension point: coroutines *)
+| KCoBottom (co : positive) (saved : Z)               (* bottom of a coroutine's stack segment; below it: the resumer *)
+| KWrap.                                              (* coroutine.wrap: results of the resume in progress *)
 
 Inductive control :=
 | CExp (e : exp) (ρ : env)
@@ -93,16 +99,25 @@ Inductive final :=
 | FStuck (code : Z)           (* impossible for compiled programs (e.g. break outside a loop) *)
 | FUnsupported (code : Z).    (* the program left the modelled fragment *)
 
-Record cfg := mkCfg { ctl : control; stk : list frame; sto : store; trace : list (list value); cline : Z }.
+(* coroutines: not started (body), suspended (saved stack segment and line), on the
+   stack (running or normal), dead *)
+Inductive costate := CoFresh (f : value) | CoSusp (k : list frame) (ln : Z) | CoActive | CoDead.
+Record cotab := mkCot { cos : PositiveMap.t costate; nco : positive }.
+Definition main_co : positive := 1%positive.
+Definition init_cot : cotab := mkCot (PositiveMap.add main_co CoActive (PositiveMap.empty costate)) 2%positive.
+
+Record cfg := mkCfg { ctl : control; stk : list frame; sto : store; trace : list (list value); cline : Z; cot : cotab }.
 
 Definition res := (cfg + final)%type.
 
 Definition go (c : cfg) (ct : control) (k : list frame) : res :=
-  inl (mkCfg ct k (sto c) (trace c) (cline c)).
+  inl (mkCfg ct k (sto c) (trace c) (cline c) (cot c)).
 Definition gos (c : cfg) (ct : control) (k : list frame) (s : store) : res :=
-  inl (mkCfg ct k s (trace c) (cline c)).
+  inl (mkCfg ct k s (trace c) (cline c) (cot c)).
 Definition gol (c : cfg) (ct : control) (k : list frame) (ln : Z) : res :=
-  inl (mkCfg ct k (sto c) (trace c) ln).
+  inl (mkCfg ct k (sto c) (trace c) ln (cot c)).
+Definition goc (c : cfg) (ct : control) (k : list frame) (ln : Z) (t : cotab) : res :=
+  inl (mkCfg ct k (sto c) (trace c) ln t).
 
 Definition position_at (ln : Z) : str := (lit "chunk:") ++ dec_of_Z ln ++ (lit ": ").
 
@@ -201,7 +216,7 @@ Fixpoint find_handler (k : list frame) : option value :=
   | [] => None
   | KPcall h :: _ => h
   | KHandler :: _ => None
-  | KCoBottom _ :: _ => None
+  | KCoBottom _ _ :: _ => None
   | _ :: r => find_handler r
   end.
 
@@ -284,14 +299,32 @@ Definition fornum_init (c : cfg) (x : name) (b : block) (ρ : env) (ln : Z) (val
 
 (* ------------------------------------------------- expression lists *)
 
+(* the value of the to-be-closed variable of a local statement, if any *)
+Fixpoint close_val (xs : list (name * attrib)) (vals : list value) : option value :=
+  match xs with
+  | [] => None
+  | (_, AClose) :: _ => Some (first vals)
+  | _ :: r => close_val r (tl vals)
+  end.
+
+Definition closable (s : store) (v : value) : bool :=
+  match metamethod s v (lit "__close") with VNil => false | _ => true end.
+
 Definition finish_list (c : cfg) (vals : list value) (ρ : env) (lk : listk) (k : list frame) : res :=
   match lk with
   | LCall => match vals with f :: args => go c (CCall f args true) k | [] => inr (FStuck 1) end
   | LReturn => go c (COut (OReturn vals)) k
   | LLocal xs rest seen =>
-      if has_close xs then inr (FUnsupported 1) else
       let '(ρv, s, _) := bind_names (map fst xs) vals (vars ρ) (sto c) in
-      gos c (CBlock rest (mkEnv ρv (va ρ)) seen) k s
+      match close_val xs vals with
+      | None | Some VNil | Some (VBool false) => gos c (CBlock rest (mkEnv ρv (va ρ)) seen) k s
+      | Some v =>
+          (* manual 3.3.8: the rest of the block runs above the scope frame; labels passed
+             before the declaration stay reachable below it (jumping there leaves the scope) *)
+          if closable (sto c) v
+          then gos c (CBlock rest (mkEnv ρv (va ρ)) []) (KScope v :: KSeq [] ρ seen :: k) s
+          else rterr c (lit "nonclosable") k
+      end
   | LAssign ts => let '(tgs, rhs) := build_targets ts vals ρ in go c (CAssign tgs rhs) k
   | LTable sh =>
       match build_table sh vals 1 [] with
@@ -302,8 +335,10 @@ Definition finish_list (c : cfg) (vals : list value) (ρ : env) (lk : listk) (k 
   | LForIn xs b ln =>
       let f := first vals in let s := first (tl vals) in let ctl := first (tl (tl vals)) in
       match first (tl (tl (tl vals))) with
-      | VNil => go c (CCall f [s; ctl] true) (KForInC xs f s b ρ ln :: k)
-      | _ => inr (FUnsupported 2)
+      | VNil | VBool false => go c (CCall f [s; ctl] true) (KForInC xs f s b ρ ln :: k)
+      | cv => if closable (sto c) cv
+              then go c (CCall f [s; ctl] true) (KForInC xs f s b ρ ln :: KScope cv :: k)
+              else rterr c (lit "nonclosable") k
       end
   end.
 
@@ -512,11 +547,41 @@ Fixpoint tm_next (m : tmap) (kk : value) : option (option (value * value)) :=
                     else tm_next r kk
   end.
 
+(* the innermost coroutine on the stack: its frames, its id, the line and stack of its resumer *)
+Fixpoint split_co (k : list frame) : option (list frame * positive * Z * list frame) :=
+  match k with
+  | [] => None
+  | KCoBottom id saved :: r => Some ([], id, saved, r)
+  | fr :: r => match split_co r with
+               | Some (kc, id, saved, rest) => Some (fr :: kc, id, saved, rest)
+               | None => None
+               end
+  end.
+
+Definition current_co (k : list frame) : positive :=
+  match split_co k with Some (_, id, _, _) => id | None => main_co end.
+
+Definition co_get (c : cfg) (id : positive) : costate :=
+  match PositiveMap.find id (cos (cot c)) with Some x => x | None => CoDead end.
+Definition co_put (c : cfg) (id : positive) (x : costate) : cotab :=
+  mkCot (PositiveMap.add id x (cos (cot c))) (nco (cot c)).
+
+Definition has_scope (k : list frame) : bool :=
+  existsb (fun fr => match fr with KScope _ => true | _ => false end) k.
+
+(* coroutine.resume / a call of a wrap function: transfer control into coroutine id *)
+Definition resume_co (c : cfg) (id : positive) (args : list value) (k : list frame) : res :=
+  match co_get c id with
+  | CoFresh f => goc c (CCall f args false) (KCoBottom id (cline c) :: k) (cline c) (co_put c id CoActive)
+  | CoSusp kc ln => goc c (CRet args) (kc ++ KCoBottom id (cline c) :: k) ln (co_put c id CoActive)
+  | CoActive | CoDead => go c (CRet [VBool false; VStr (lit "#costate")]) k
+  end.
+
 Definition call_builtin (c : cfg) (b : builtin) (args : list value) (k : list frame) : res :=
   let ret (vs : list value) := go c (CRet vs) k in
   let badarg := rterr c (lit "badarg") k in
   match b with
-  | BEmit => inl (mkCfg (CRet args) k (sto c) (args :: trace c) (cline c))
+  | BEmit => inl (mkCfg (CRet args) k (sto c) (args :: trace c) (cline c) (cot c))
   | BPcall => match args with f :: r => go c (CCall f r false) (KPcall None :: k) | [] => badarg end
   | BXpcall => match args with
                | f :: h :: r => go c (CCall f r false) (KPcall (Some h) :: k)
@@ -776,8 +841,54 @@ Definition call_builtin (c : cfg) (b : builtin) (args : list value) (k : list fr
                   end
       | [] => badarg
       end
-  | BCoCreate | BCoResume | BCoYield | BCoStatus | BCoWrap | BCoClose | BCoIsYieldable
-  | BCoRunning | BCoWrapped _ => inr (FUnsupported 30)
+  | BCoCreate =>
+      match args with
+      | f :: _ => if is_function f then
+                    let id := nco (cot c) in
+                    goc c (CRet [VCo id]) k (cline c) (mkCot (PositiveMap.add id (CoFresh f) (cos (cot c))) (Pos.succ id))
+                  else badarg
+      | [] => badarg
+      end
+  | BCoWrap =>
+      match args with
+      | f :: _ => if is_function f then
+                    let id := nco (cot c) in
+                    goc c (CRet [VBuiltin (BCoWrapped id)]) k (cline c)
+                        (mkCot (PositiveMap.add id (CoFresh f) (cos (cot c))) (Pos.succ id))
+                  else badarg
+      | [] => badarg
+      end
+  | BCoResume => match args with VCo id :: r => resume_co c id r k | _ => badarg end
+  | BCoWrapped id => resume_co c id args (KWrap :: k)
+  | BCoYield =>
+      match split_co k with
+      | Some (kc, id, saved, rest) =>
+          goc c (CRet (VBool true :: args)) rest saved (co_put c id (CoSusp kc (cline c)))
+      | None => rterr c (lit "yieldoutside") k
+      end
+  | BCoStatus =>
+      match args with
+      | VCo id :: _ =>
+          ret [VStr (match co_get c id with
+                     | CoFresh _ | CoSusp _ _ => lit "suspended"
+                     | CoDead => lit "dead"
+                     | CoActive => if Pos.eqb (current_co k) id then lit "running" else lit "normal"
+                     end)]
+      | _ => badarg
+      end
+  | BCoRunning => let id := current_co k in ret [VCo id; VBool (Pos.eqb id main_co)]
+  | BCoIsYieldable => ret [VBool (match split_co k with Some _ => true | None => false end)]
+  | BCoClose =>
+      match args with
+      | VCo id :: _ =>
+          match co_get c id with
+          | CoFresh _ | CoDead => goc c (CRet [VBool true]) k (cline c) (co_put c id CoDead)
+          | CoSusp kc _ => if has_scope kc then inr (FUnsupported 32)
+                           else goc c (CRet [VBool true]) k (cline c) (co_put c id CoDead)
+          | CoActive => rterr c (lit "costate") k
+          end
+      | _ => badarg
+      end
   end.
 
 (* ------------------------------------------------------------------ calls *)
@@ -829,7 +940,7 @@ Definition step_block (c : cfg) (ss : block) (ρ : env) (seen : labels) (k : lis
   | (ln, s) :: rest =>
       match s with
       | SLocal xs es =>
-          match start_list (mkCfg (ctl c) (stk c) (sto c) (trace c) ln) [] es ρ (LLocal xs rest seen) k with
+          match start_list (mkCfg (ctl c) (stk c) (sto c) (trace c) ln (cot c)) [] es ρ (LLocal xs rest seen) k with
           | r => r
           end
       | SLabel l => go c (CBlock rest ρ ((l, (ss, ρ)) :: seen)) k
@@ -873,6 +984,15 @@ Definition step_exp (c : cfg) (e : exp) (ρ : env) (k : list frame) : res :=
   | ETable fs => start_list c [] (field_exps fs) ρ (LTable (field_shapes fs)) k
   end.
 
+(* leaving the scope of a to-be-closed value: call its __close metamethod with the
+   value and the error in flight (nil if none); the exit p resumes afterwards *)
+Definition close_scope (c : cfg) (v : value) (p : pend) (k : list frame) : res :=
+  let e := match p with POut (OError e) => e | _ => VNil end in
+  match metamethod (sto c) v (lit "__close") with
+  | VNil => rterr c (lit "call") k
+  | h => go c (CCall h [v; e] true) (KClosing p :: k)
+  end.
+
 (* values delivered to the top frame *)
 Definition step_ret (c : cfg) (vs : list value) (fr : frame) (k : list frame) : res :=
   match fr with
@@ -913,8 +1033,16 @@ Definition step_ret (c : cfg) (vs : list value) (fr : frame) (k : list frame) : 
                  | VNil => go c (CRet [VNil]) k
                  | v => go c (CRet [VInt i; v]) k
                  end
-  | KSeq _ _ _ | KLoop _ _ _ | KForNumI _ _ _ _ _ _ _ | KForNumF _ _ _ _ _ _ _ | KForIn _ _ _ _ _ _ _
-  | KAssign _ _ | KCoBottom _ => inr (FStuck 5)
+  | KCoBottom id saved => goc c (CRet (VBool true :: vs)) k saved (co_put c id CoDead)
+  | KWrap => match vs with
+             | VBool true :: r => go c (CRet r) k
+             | _ :: e :: _ => go c (CRaise e) k
+             | _ => inr (FStuck 11)
+             end
+  | KClosing PDone => go c CDone k
+  | KClosing (POut o) => go c (COut o) k
+  | KScope _ | KSeq _ _ _ | KLoop _ _ _ | KForNumI _ _ _ _ _ _ _ | KForNumF _ _ _ _ _ _ _ | KForIn _ _ _ _ _ _ _
+  | KAssign _ _ => inr (FStuck 5)
   end.
 
 (* normal completion of a statement *)
@@ -927,16 +1055,20 @@ Definition step_done (c : cfg) (fr : frame) (k : list frame) : res :=
   | KForIn xs f s ctl' b ρ ln => gol c (CCall f [s; ctl'] true) (KForInC xs f s b ρ ln :: k) ln
   | KCallB saved _ => gol c (CRet []) k saved
   | KAssign ts vs => go c (CAssign ts vs) k
+  | KScope v => close_scope c v PDone k
   | _ => inr (FStuck 6)
   end.
 
 (* an abrupt outcome meets the top frame *)
 Definition step_out (c : cfg) (o : outcome) (fr : frame) (k : list frame) : res :=
+  match fr with
+  | KScope v => close_scope c v (POut o) k
+  | _ =>
   match o with
   | OBreak =>
       match fr with
       | KLoop _ _ _ | KForNumI _ _ _ _ _ _ _ | KForNumF _ _ _ _ _ _ _ | KForIn _ _ _ _ _ _ _ => go c CDone k
-      | KCallB _ _ | KPcall _ | KHandler | KCoBottom _ => inr (FStuck 7)
+      | KCallB _ _ | KPcall _ | KHandler | KCoBottom _ _ => inr (FStuck 7)
       | _ => go c (COut o) k
       end
   | OGoto l =>
@@ -949,22 +1081,23 @@ Definition step_out (c : cfg) (o : outcome) (fr : frame) (k : list frame) : res 
                     | None => go c (COut o) k
                     end
           end
-      | KCallB _ _ | KPcall _ | KHandler | KCoBottom _ => inr (FStuck 8)
+      | KCallB _ _ | KPcall _ | KHandler | KCoBottom _ _ => inr (FStuck 8)
       | _ => go c (COut o) k
       end
   | OReturn vs =>
       match fr with
       | KCallB saved _ => gol c (CRet vs) k saved
-      | KPcall _ | KHandler | KCoBottom _ => inr (FStuck 9)
+      | KPcall _ | KHandler | KCoBottom _ _ => inr (FStuck 9)
       | _ => go c (COut o) k
       end
   | OError v =>
       match fr with
       | KPcall _ => go c (CRet [VBool false; v]) k
       | KCallB saved _ => gol c (COut o) k saved
-      | KCoBottom _ => inr (FUnsupported 31)
+      | KCoBottom id saved => goc c (CRet [VBool false; v]) k saved (co_put c id CoDead)
       | _ => go c (COut o) k
       end
+  end
   end.
 
 Definition step (c : cfg) : res :=
@@ -1019,7 +1152,7 @@ Definition run (n : nat) (c : cfg) : result :=
 
 (* the main chunk is a vararg function applied to the argument tuple *)
 Definition init_cfg (body : block) (args : list value) : cfg :=
-  mkCfg (CBlock body (mkEnv [] args) []) [KCallB 0 false] init_store [] 0.
+  mkCfg (CBlock body (mkEnv [] args) []) [KCallB 0 false] init_store [] 0 init_cot.
 
 Definition run_program (fuel : nat) (body : block) (args : list value) : result :=
   run fuel (init_cfg body args).
